@@ -363,6 +363,10 @@ impl Tracker {
     }
 
     pub fn skip(&mut self, scene: u64, n: usize) {
+        // scene 0 has a twin entry point without a scene argument: used for odd amounts
+        if scene == 0 && n % 2 == 1 {
+            return each!(self, t => t.skip_epochs(n));
+        }
         each!(self, t => t.skip_epochs_for_scene(scene, n))
     }
     pub fn epoch(&self, scene: u64) -> usize {
